@@ -291,6 +291,14 @@ def run(ctx):
                 ctx.spec_fail('%s|presorted|differs' % fn, '%s(presorted=True) on key-sorted inputs differs from the default call' % fn,
                               {'op': fn, 'left_sorted': repr(Ls), 'right_sorted': repr(Rs), 'lkey': repr(lkey), 'rkey': repr(rkey), 'default': a, 'presorted': b})
 
+    # ---- operands that are sort views
+    util.view_operand_cases(etl, rng, ctx, [
+        ('join', 2, lambda a, b: etl.join(a, b, key='x')), ('leftjoin', 2, lambda a, b: etl.leftjoin(a, b, key='x')),
+        ('rightjoin', 2, lambda a, b: etl.rightjoin(a, b, key='x')), ('outerjoin', 2, lambda a, b: etl.outerjoin(a, b, key='x')),
+        ('antijoin', 2, lambda a, b: etl.antijoin(a, b, key='x')), ('lookupjoin', 2, lambda a, b: etl.lookupjoin(a, b, key='x')),
+        ('join(compound)', 2, lambda a, b: etl.join(a, b, key=('x', 'xy'))), ('join(xy)', 2, lambda a, b: etl.join(a, b, key='xy')),
+        ('outerjoin(missing)', 2, lambda a, b: etl.outerjoin(a, b, key='x', missing='NA')),
+    ], 360 if ctx.thorough() else 90)
 
 def replay(d):
     print('replay case:', d.get('case'))
